@@ -43,9 +43,11 @@ def dist_queue(ctx, nchildren=2):
         parent = SER.DistributorQueue()
         kids = [SER.DistributorQueue(parent) for _ in range(nchildren)]
         return parent, kids
-    parent = ctx.new(SER.DistributorQueue, _handlers={}, _parent=None)
+    from pyvc.values import interp as _interp
+    parent = ctx.new(SER.DistributorQueue, _handlers=ctx.track({}), _parent=None)
     kids = [ctx.new(SER.DistributorQueue, _handlers={}, _parent=parent) for _ in range(nchildren)]
-    parent.fields["_handlers"] = ctx.track({101 + i: k for i, k in enumerate(kids)})
+    for k in kids:      # subscribed through the real add_handler (keyed by hash(child))
+        _interp().call(_interp().get_attr(parent, "add_handler"), (k,), {})
     return parent, kids
 
 
